@@ -108,3 +108,15 @@ Proof.
   exists [210; 103], [0; 21], 13266, 13266, [0; 103], [210; 21]. split; [vm_compute; reflexivity|discriminate].
 Qed.
 Print Assumptions rotate_pinned_confined_refuted.
+
+(* D12: the pinned tree wrote the state file in place; without O_TRUNC on the temporary file a
+   stale longer temporary file corrupts a later shorter save *)
+From Verif Require Import Storage StorageProofs.
+Theorem storage_pinned_refuted : exists s data c,
+  f_state (save_pinned s data c) <> f_state s /\ f_state (save_pinned s data c) <> Some data.
+Proof. exact save_pinned_refuted. Qed.
+Print Assumptions storage_pinned_refuted.
+Theorem storage_notrunc_refuted : exists s h,
+  f_state (run false s h) <> f_state s /\ forall x, In x h -> f_state (run false s h) <> Some (fst x).
+Proof. exact save_notrunc_refuted. Qed.
+Print Assumptions storage_notrunc_refuted.
